@@ -2,7 +2,7 @@
 
 Case = {"src": "values"|"optional"|"bgp"|"empty", "vars": [names], "rows": [[termdesc|None …] …],
         "q": {"mod": None|"DISTINCT"|"REDUCED", "proj": [["v", name] | ["e", E, alias] …],
-              "group": None | [names], "having": None | E, "order": [[E, desc] …],
+              "group": None | [name | ["as", E, alias] …], "having": None | E, "order": [[E, desc] …],
               "limit": None|n, "offset": None|n}}
 termdesc = ["I", n] | ["I", n, "int"|…] | ["D", m, s] | ["F", m, s] (double) | ["F", m, s, "float"] | ["B", 0|1] | ["S", text, lang] | ["U", local] | ["N", label]
 E = ["v", name] | ["c", termdesc] | ["+", E, E] | ["-", E, E] | ["cmp", op, E, E]
@@ -250,6 +250,11 @@ def expr_text(e):
     raise ValueError(e)
 
 
+def group_items(q):
+    """GROUP BY conditions as (variable name, expression or None)"""
+    return [(g, None) if isinstance(g, str) else (g[2], g[1]) for g in (q["group"] or [])]
+
+
 def pattern_text(case):
     vs, rows, src = case["vars"], case["rows"], case["src"]
     if src == "values":
@@ -272,7 +277,7 @@ def query_text(case, sliced=True):
     proj = " ".join("?" + p[1] if p[0] == "v" else f"({expr_text(p[1])} AS ?{p[2]})" for p in q["proj"])
     s = f"SELECT {q['mod'] + ' ' if q['mod'] else ''}{proj} WHERE {{ {pattern_text(case)} }}"
     if q["group"] is not None:
-        s += " GROUP BY " + " ".join("?" + g for g in q["group"])
+        s += " GROUP BY " + " ".join("?" + n if e is None else f"({expr_text(e)} AS ?{n})" for n, e in group_items(q))
     if q["having"] is not None:
         s += " HAVING " + expr_text(q["having"])
     if q["order"]:
@@ -421,7 +426,19 @@ class Ev:
             x, y = na[1], nb[1]
             r = {"<": x < y, ">": x > y, "=": x == y, "!=": x != y, "<=": x <= y, ">=": x >= y}[op]
             return {f"B:{int(r)}"}
-        return {"B:0", "B:1", "-"}  # not judged
+        if op in ("=", "!="):
+            # RDFterm-equal: IRIs / blank nodes against anything, two simple strings, two booleans
+            ka, kb = a[0], b[0]
+            simple = lambda c: c.startswith("S:") and c.endswith("@")
+            if ka in "UN" or kb in "UN" or (simple(a) and simple(b)) or (ka == "B" and kb == "B"):
+                return {f"B:{int((a == b) == (op == '='))}"}
+        elif (a.startswith("S:") and a.endswith("@") and b.startswith("S:") and b.endswith("@")) or (a[0] == "B" and b[0] == "B"):
+            a, b = a[2:-1] if a[0] == "S" else a, b[2:-1] if b[0] == "S" else b
+            r = {"<": a < b, ">": a > b, "<=": a <= b, ">=": a >= b}[op]
+            return {f"B:{int(r)}"}
+        elif a[0] in "UN" or b[0] in "UN":
+            return {"-"}  # ordering an IRI / blank node is a type error
+        return {"B:0", "B:1", "-"}  # not judged (mixed literal classes, language strings)
 
     def ev(self, e, sol, group=None):
         """sol: dict var->cell (the solution, or the group's key bindings); group: list of solutions or None"""
@@ -555,11 +572,18 @@ def build_items(case, sols):
         if q["group"] is None:
             groups = [({}, sol_dicts)]
         else:
+            gi = group_items(q)
             idx = {}
             for s in sol_dicts:
-                key = tuple(s.get(g, "-") for g in q["group"])
+                s = dict(s)
+                for n, e in gi:  # GROUP BY (expr AS ?k) extends the solution before grouping
+                    if e is not None:
+                        val = next(iter(ev.ev(e, s)))
+                        if val != "-":
+                            s[n] = val
+                key = tuple(s.get(n, "-") for n, _e in gi)
                 idx.setdefault(key, []).append(s)
-            groups = [({g: c for g, c in zip(q["group"], key) if c != "-"}, rows) for key, rows in idx.items()]
+            groups = [({n: c for (n, _e), c in zip(gi, key) if c != "-"}, rows) for key, rows in idx.items()]
         ctxs = [(kb, rows) for kb, rows in groups]
     else:
         ctxs = [(s, None) for s in sol_dicts]
@@ -747,7 +771,11 @@ def run_impl(case):
     stats = {"src_" + case["src"]: 1, "rows": len(case["rows"]), "mod_" + str(q["mod"]): 1,
              "order_keys": len(q["order"]), "sliced": int(q["limit"] is not None or q["offset"] is not None),
              "grouped": int(is_grouped(q)), "group_keys_" + str(None if q["group"] is None else len(q["group"])): 1,
-             "having": int(q["having"] is not None)}
+             "having": int(q["having"] is not None),
+             "having_without_aggregate": int(q["having"] is not None and not has_agg(q["having"])),
+             "group_by_expr_as": int(any(e is not None for _n, e in group_items(q))),
+             "order_by_unselected_key": int(any(e[0] == "v" and e[1] in [n for n, _ in group_items(q)] and
+                                                ["v", e[1]] not in q["proj"] for e, _d in q["order"]))}
     for p in q["proj"]:
         for a in _aggs_in(p[1] if p[0] == "e" else None):
             stats["agg_" + a[1] + ("_distinct" if a[2] else "")] = stats.get("agg_" + a[1] + ("_distinct" if a[2] else ""), 0) + 1
@@ -823,6 +851,9 @@ CMP_TOK = {"<": "lt", ">": "gt", "=": "eq", "!=": "ne", "<=": "le", ">=": "ge"}
 
 def var_index(case):
     names = list(case["vars"])
+    for n, e in group_items(case["q"]):
+        if e is not None and n not in names:
+            names.append(n)
     for p in case["q"]["proj"]:
         if p[0] == "e" and p[2] not in names:
             names.append(p[2])
@@ -858,7 +889,9 @@ def model_lines(case):
     if q["group"] is None:
         t.append("-")
     else:
-        t += [str(len(q["group"]))] + [str(ix[g]) for g in q["group"]]
+        t.append(str(len(q["group"])))
+        for n, e in group_items(q):
+            t += ["gv", str(ix[n])] if e is None else ["ga", str(ix[n])] + expr_toks(e, ix)
     t.append(str(len(q["proj"])))
     for p in q["proj"]:
         t += ["pv", str(ix[p[1]])] if p[0] == "v" else ["pe", str(ix[p[2]])] + expr_toks(p[1], ix)
@@ -970,6 +1003,11 @@ def gen_const(rng):
     return rng.choice([["I", 1], ["I", 2], ["I", 0], ["D", 5, 1], ["D", 15, 1], ["I", 3]])
 
 
+def gen_key_const(rng):
+    return rng.choice([["I", 1], ["I", 2], ["S", "a", ""], ["U", "a"], ["D", 10, 1], ["S", "", ""], ["B", 0], ["U", "b"], ["I", 0],
+                       ["S", "b", ""], ["B", 1]])
+
+
 def gen_agg(rng, names, profiles):
     kind = rng.choice(["COUNT", "COUNT", "SUM", "SUM", "AVG", "MIN", "MAX", "SAMPLE", "GROUP_CONCAT"])
     dist = rng.random() < 0.35
@@ -997,13 +1035,21 @@ def gen_query(rng, vars_, names, profiles):
     grouped = rng.random() < 0.55
     if grouped:
         r = rng.random()
-        keys = [] if r < 0.3 else [rng.choice(vars_)] if r < 0.8 else rng.sample(vars_, min(2, len(vars_)))
-        q["group"] = keys or None
-        shown = [k for k in keys if rng.random() < 0.75]
+        kvars = [] if r < 0.3 else [rng.choice(vars_)] if r < 0.8 else rng.sample(vars_, min(2, len(vars_)))
+        group, keys = [], []
+        for j, k in enumerate(kvars):
+            if rng.random() < 0.2:  # GROUP BY (expr AS ?k)
+                e = ["v", k] if rng.random() < 0.4 else [rng.choice("+-"), ["v", k], ["c", gen_const(rng)]]
+                group.append(["as", e, "k" + str(j)])
+                keys.append("k" + str(j))
+            else:
+                group.append(k)
+                keys.append(k)
+        q["group"] = group or None
+        shown = [k for k in keys if rng.random() < 0.7]
         for k in shown:
             q["proj"].append(["v", k])
         nagg = rng.choice([1, 1, 2, 3]) if (q["group"] is None or rng.random() < 0.9) else 0
-        aggexprs = []
         for j in range(nagg):
             a = gen_agg(rng, vars_ if rng.random() < 0.2 else names, profiles)
             r = rng.random()
@@ -1016,7 +1062,6 @@ def gen_query(rng, vars_, names, profiles):
                 e = ["+", a, gen_agg(rng, names, profiles)]
             else:
                 e = ["+", a, ["v", rng.choice(keys)]]
-            aggexprs.append(e)
             q["proj"].append(["e", e, aliases[j]])
         if not q["proj"]:
             if keys:
@@ -1024,12 +1069,23 @@ def gen_query(rng, vars_, names, profiles):
             else:
                 q["proj"].append(["e", ["agg", "COUNT", False, "*", None], "x"])
         rng.shuffle(q["proj"])
-        if rng.random() < 0.3:
+        if rng.random() < 0.4:
             a = gen_agg(rng, names, profiles)
             while a[1] not in ("COUNT", "SUM", "AVG"):
                 a = gen_agg(rng, names, profiles)
-            lhs = a if rng.random() < 0.8 else ["+", a, ["c", gen_const(rng)]]
-            q["having"] = ["cmp", rng.choice(["<", ">", "=", "!=", "<=", ">="]), lhs, ["c", gen_const(rng)]]
+            op = rng.choice(["<", ">", "=", "!=", "<=", ">="])
+            r = rng.random()
+            if r < 0.45 or not keys:  # aggregates only
+                lhs = a if rng.random() < 0.8 else ["+", a, ["c", gen_const(rng)]]
+                q["having"] = ["cmp", op, lhs, ["c", gen_const(rng)]]
+            elif r < 0.8:  # the group key only (selected or not): HAVING without any aggregate
+                k = ["v", rng.choice(keys)]
+                c = ["c", gen_key_const(rng)]
+                op = rng.choice(["=", "!=", "=", "!=", "<", ">", "<=", ">="])
+                q["having"] = ["cmp", op, k, c] if rng.random() < 0.8 else ["cmp", op, c, k]
+            else:  # key and aggregate together
+                k = ["v", rng.choice(keys)]
+                q["having"] = ["cmp", op, a, k] if rng.random() < 0.5 else ["cmp", op, [rng.choice("+-"), a, k], ["c", gen_const(rng)]]
         pool = [["v", k] for k in keys] * 2 + [["v", p[2]] for p in q["proj"] if p[0] == "e"] * 2
         nk = rng.choice([0, 0, 1, 1, 2, 3])
         use_agg_key = rng.random() < 0.3
